@@ -42,10 +42,14 @@ FUNCS = [
 
 
 def run_field_validators(cls, field, value):
-    """What pydantic does for `field` on load: run the declared field validators (mode 'after')."""
+    """What pydantic does for `field` on load: run the declared field validators (mode 'after'); like pydantic, an
+    AssertionError raised by a validator is a validation error (a ValueError for the caller)."""
     for name, dec in cls.__pydantic_decorators__.field_validators.items():
         if field in dec.info.fields or "*" in dec.info.fields:
-            value = getattr(cls, name)(value)
+            try:
+                value = getattr(cls, name)(value)
+            except AssertionError as exc:
+                raise ValueError(f"assertion failed in validator {name}: {exc}") from exc
     return value
 
 
@@ -320,6 +324,22 @@ def writer_scenario(e, cfg):
 
 
 def _cell(cell):
+    if cell.get("optimized") and not cell.get("_in_subprocess"):
+        # the same symbolic run in an interpreter started with -O (assert statements are compiled away)
+        import base64
+        import json
+        import pickle
+        import subprocess
+        import sys
+        r = subprocess.run([sys.executable, "-O", "-m", "vtlib.checks.c17", json.dumps(dict(cell, _in_subprocess=True))],
+                           capture_output=True, text=True, timeout=1200, cwd=str(common.VERIF))
+        for line in r.stdout.split("\n"):
+            if line.startswith("RESULT "):
+                return pickle.loads(base64.b64decode(line[7:]))
+        from ..symx import Stats
+        st = Stats()
+        st.inconclusive.append("python -O sub-process failed: " + r.stderr[-300:])
+        return st
     kind = cell["kind"]
     fn = {"reader": reader_scenario, "validator": validator_scenario, "writer": writer_scenario}[kind]
     return explore(lambda e: fn(e, cell))
@@ -333,6 +353,8 @@ def run(tier, seed):
           ("FileInfo.file_path", "ShardsList.relative_path_self", "filler.relative_path_from_split")]
     cs += [dict(kind="reader", op=op, K=(2 if tier == "quick" else 3)) for op in ("shard_infos", "check", "iterate")]
     cs += [dict(kind="writer", K=K)]
+    # the protection must not depend on assert statements: the validator cells again under `python -O`
+    cs += [dict(c, optimized=True) for c in cs if c["kind"] in ("validator", "writer")]
     st, per_cell, errors = par.run_cells(_cell, cs)
     errors += [f"SymPath self-test: {p}" for p in problems[:5]]
     viols, seen = [], set()
@@ -348,11 +370,11 @@ def run(tier, seed):
                 conc[f"literal:{lit[:6]}"] = "w\\..\\..\\..\\x"
         flavour = ("winsep" if any("\\" in v for v in conc.values()) else
                    "absolute" if any(m.get(f"{n}_root") for n in names) else "dotdot")
-        sig = f"C17:{kind}:{flavour}"
+        sig = f"C17:{kind}:{flavour}" + (":python-O" if "python -O" in c["msg"] else "")
         if sig in seen:
             continue
         seen.add(sig)
-        viols.append(Violation(sig, f"{c['msg']} with {conc}", dict(kind=kind, paths=conc, model=m)))
+        viols.append(Violation(sig, f"{c['msg']} with {conc}", dict(kind=kind, paths=conc, model=m, optimized=("python -O" in c["msg"]))))
     return Result(
         property_id=PROP, engine="symx + SymPath shim",
         explanation="Symbolic execution with z3 of the real path validators, of the readers' join sites (load, shard-info "
@@ -378,6 +400,14 @@ def run(tier, seed):
 def replay(case):
     """Concrete replay on the real pydantic models / real files: a sentinel file outside the root must not
     be read, created, or accepted."""
+    import sys
+    if case.get("optimized") and not sys.flags.optimize:
+        import json
+        import subprocess
+        r = subprocess.run([sys.executable, "-O", "-c",
+                            "import json,sys; from vtlib.checks import c17; ok,d=c17.replay(json.loads(sys.argv[1])); print(d); sys.exit(1 if ok else 0)",
+                            json.dumps(case)], capture_output=True, text=True, timeout=600, cwd=str(common.VERIF))
+        return r.returncode == 1, "[python -O] " + r.stdout[-400:]
     common.import_sedpack()
     import json
     from sedpack.io import Dataset
@@ -478,3 +508,14 @@ def _snapshot(tmp, inside):
         if not str(p).startswith(str(inside)):
             out.add(str(p))
     return out
+
+
+if __name__ == "__main__":
+    import base64
+    import json
+    import pickle
+    import sys
+    _st = _cell(json.loads(sys.argv[1]))
+    for _c in _st.cex:
+        _c["msg"] = "[python -O] " + _c["msg"]
+    print("RESULT " + base64.b64encode(pickle.dumps(_st)).decode(), flush=True)
